@@ -303,7 +303,10 @@ PROPS['C03']['extra'] = deep_probe
 # ---------------------------------------------------------------------------
 # C15
 C15_KINDS = {0: 'Score', 1: 'Error', 2: 'TestResult', 3: 'TestResults<Score>', 4: 'TestResults<Error>', 5: 'EcIndividual<Score>', 6: 'EcIndividual<Error>',
-             7: 'TestResults::from', 8: 'collect::<TestResults>', 9: 'GenomeScorer/IndividualGenerator'}
+             7: 'TestResults::from', 8: 'collect::<TestResults>', 9: 'GenomeScorer/IndividualGenerator',
+             10: 'min/max/clamp [0 Score / 1 Error, x, y, z] -> [x.min(y), x.max(y), min(x,y), max(x,y), x.clamp(lo,hi) of (y,z), max of all, min of all]',
+             11: 'clone_from [0 Score / 1 Error, target results, source results] -> [total, results.. , -7, the same through Vec::clone_from]',
+             12: 'EcIndividual over a single TestResult [[genome, [0 score/1 error, value]], ..]'}
 def c15_describe(inp, obs):
     return '%s on %s  -- observed [lt,le,gt,ge,eq,ne,cmp,partial_cmp] (cmp: -1 less, 0 equal, 1 greater, 2 n/a) or [total, results...]' % (C15_KINDS.get(inp[0]), inp[1:])
 PROPS['C15'] = dict(
@@ -311,7 +314,7 @@ PROPS['C15'] = dict(
     coq_targets=['theories/Props/C15.vo', 'theories/Corr/CorrC15.vo'],
     describe=c15_describe, bucket=lambda i, o: ['type=%s' % C15_KINDS.get(i[0])], classify=lambda i, o: 'order:%s' % C15_KINDS.get(i[0]),
     nontrivial=lambda i, o: True,
-    rule='all ordered pairs over {MIN, MIN+1, -2, -1, 0, 1, 2, MAX-1, MAX} for Score<i64>, Error<i64>, TestResult<i64,i64> (all four tag combinations) and singleton TestResults; random result vectors incl. empty, reversed, equal-total-different-cases; EcIndividual pairs with equal and different genomes; TestResults::from / collect (results and total fields read back); GenomeScorer and IndividualGenerator with a probe genome maker and an FnScorer. All of <, <=, >, >=, ==, !=, cmp, partial_cmp are observed and compared with Order.v in coqc. Every case is non-trivial; distinct inputs counted.',
+    rule='all ordered pairs over {MIN, MIN+1, -2, -1, 0, 1, 2, MAX-1, MAX} for Score<i64>, Error<i64>, TestResult<i64,i64> (all four tag combinations) and singleton TestResults; random result vectors incl. empty, reversed, equal-total-different-cases; EcIndividual pairs with equal and different genomes; TestResults::from / collect (results and total fields read back); GenomeScorer and IndividualGenerator with a probe genome maker and an FnScorer; min / max (method and free function) / clamp / Iterator::max / Iterator::min over boundary triples; clone_from (directly and through Vec::clone_from); individuals scored by a single score-or-error TestResult (only partially ordered). All of <, <=, >, >=, ==, !=, cmp, partial_cmp are observed and compared with Order.v in coqc. Every case is non-trivial; distinct inputs counted.',
     trusted=[], assumptions=['partial sums stay inside i64 (Iterator::sum overflow is Rust arithmetic: panics in debug, wraps in release) - outside the property domain, see DESIGN C15'],
     level_text='Theorems (Props/C15.v): Score is a lawful ascending total order, Error the reversed one (reflexive, antisymmetric, transitive, total, cmp b a = CompOpp (cmp a b)), the four comparison operators are consistent with the three-way comparison, a score is never comparable to an error, TestResults and individuals compare exactly as their totals (the genome is never consulted), the total is the sum of the cases kept in order, and scoring a genome yields that genome with the scorer result. Tied to the code by observing all eight operators on boundary and random values.',
     level_note='Trusted: Coq kernel; harness+driver. `==` on aggregates is structural (derived), ordering is by total - as the code and the property say.',
@@ -603,9 +606,10 @@ PROPS['C13'] = dict(_SEL_COMMON, post_batch=make_stat_post('C13', sel_obs_code),
 MUT_KINDS = {0: 'WithRate Vec<bool>', 1: 'WithRate Bitstring', 2: 'WithOneOverLength Vec<bool>', 3: 'WithOneOverLength Bitstring', 4: 'Umad Vector<i64>',
              5: 'Umad Bitstring', 6: 'UniformXo', 7: 'Bitstring::random_with_probability', 8: 'Plushy GeneGenerator', 9: 'WithRate Vec<i64>', 10: 'Umad Plushy',
              11: 'long genome through two positions [op (0/1 WithRate Vec<bool>/Bitstring, 2/3/4 UniformXo [Bitstring;2]/[Vec<bool>;2]/(Bitstring,Bitstring), 5 random bitstring, 6 WithOneOverLength), length, i, j, rate num, rate den]; child = [changed at i, changed at j]',
-             12: 'very long genome, all genes of all children pooled [op (0/1 WithOneOverLength Bitstring/Vec<bool>, 2/3 WithRate Bitstring/Vec<bool>), length, rate num, rate den]; cells [1] = flipped genes, [0] = unflipped genes'}
+             12: 'very long genome, all genes of all children pooled [op (0/1 WithOneOverLength Bitstring/Vec<bool>, 2/3 WithRate Bitstring/Vec<bool>), length, rate num, rate den]; cells [1] = flipped genes, [0] = unflipped genes',
+             13: 'whole random Plushy, one position [instructions, length, position, close kind, close num, close den]; child = [0] close / [i+1] instruction i'}
 def mut_code(inp, child):
-    if inp[2][0] == 8:
+    if inp[2][0] in (8, 13):
         return child[0]
     c = 0
     for x in reversed(child):
@@ -631,7 +635,7 @@ PROPS['C11'] = dict(_MUT_COMMON, judge='(judge_cases judge_c11)',
 PROPS['C12'] = dict(_MUT_COMMON, judge='(judge_cases judge_c12)', post_batch=make_stat_post('C12', mut_code, mut_hist_of), cov_extra=stat_cov_extra,
     coq_targets=['theories/Props/C12.vo', 'theories/Corr/CorrMut.vo'],
     nontrivial=lambda i, o: True,
-    rule='FULL child distributions (every possible child is a cell): bit-flip at rates {1/16, 1/4, 1/2, 7/8} and 1/len for lengths 1..8 (Vec<bool> and Bitstring alternating); UMAD at (a,d) in {(1/8,1/8), (1/4,1/5), (1/2,1/4), (1,0), (0,1), (1/2,1/3)} on 0..3 tagged genes with a 2-gene alphabet and all empty-genome modes; uniform crossover for lengths 1..6; random bitstrings with p in {0, 1/8, 1/2, 7/8, 1}; Plushy gene generators over 1,2,3,5 instructions with the default (1/(n+1)) and explicit close probabilities; genomes of 65..257 genes (bit-flip, 1/length flip, uniform crossover in every argument form, random bitstrings) judged through pairs of positions - neighbours and 32/63/64/65/128/256 apart - against the pair marginals proved in C12_flip_marginals / C12_bitstring_pairs / C12_uniform_xo_pairs; genomes of 2^16+1 .. 2^18 genes with the per-gene flip frequency pooled over all genes of all children (1/length and fixed small rates). 20000 (quick) / 400000 (thorough) seeded draws per configuration, compared cell by cell with the law computed from the model in coqc (independence and the new-genes-are-deleted-too clause are consequences of the joint law).',
+    rule='FULL child distributions (every possible child is a cell): bit-flip at rates {1/16, 1/4, 1/2, 7/8} and 1/len for lengths 1..8 (Vec<bool> and Bitstring alternating); UMAD at (a,d) in {(1/8,1/8), (1/4,1/5), (1/2,1/4), (1,0), (0,1), (1/2,1/3)} on 0..3 tagged genes with a 2-gene alphabet and all empty-genome modes; uniform crossover for lengths 1..6; random bitstrings with p in {0, 1/8, 1/2, 7/8, 1}; Plushy gene generators over 1,2,3,5 instructions with the default (1/(n+1)) and explicit close probabilities; genomes of 65..257 genes (bit-flip, 1/length flip, uniform crossover in every argument form, random bitstrings) judged through pairs of positions - neighbours and 32/63/64/65/128/256 apart - against the pair marginals proved in C12_flip_marginals / C12_bitstring_pairs / C12_uniform_xo_pairs; genomes of 2^16+1 .. 2^18 genes with the per-gene flip frequency pooled over all genes of all children (1/length and fixed small rates); whole random Plushy genomes observed at their first, an inner and their last position (collection_marginal: every position follows the gene law). 20000 (quick) / 400000 (thorough) seeded draws per configuration, compared cell by cell with the law computed from the model in coqc (independence and the new-genes-are-deleted-too clause are consequences of the joint law).',
     trusted=['rand primitives as oracles', 'statistical tie: Bernstein threshold with delta = 1e-12 per cell, one 10x re-sample before a cell counts; zero-probability children are an exact violation'],
     assumptions=['all rates are dyadic-representable or small rationals; f32/f64 granularity of the rates is far below the test resolution'],
     level_text='Theorems (Props/C12.v) in Q: the bit-flip child distribution is the product law r^h (1-r)^(n-h) (hence independent flips), r n expected flips and exactly one for the 1/length variant; UMAD expected child size n (1-d)(1+a) - new genes being deletable too - and size neutrality at d = a/(1+a); uniform crossover masks are uniform (each position 1/2, independently); random bitstrings follow the product Bernoulli law; a random Plushy gene is a close marker with probability c and otherwise drawn from the instruction distribution, and with the default c = 1/(n+1) all n+1 outcomes are equally likely. Tied to the code by comparing full empirical child distributions with the model law.',
@@ -677,15 +681,15 @@ PROPS['C18'] = dict(
 # C09
 def c09_describe(inp, obs):
     return '%s on population %s, child-maker call #%d fails (-1 / >= size: none); observed [result, population afterwards, log of [saw own population, saw old contents, word1, word2, failed?, child|error]]' % (
-        'serial_next' if inp[0] == 0 else 'par_next (%d rayon threads)' % inp[0], inp[1][:8], inp[2]) + (
+        ('serial_next' if inp[0] % 100 == 0 else 'par_next (%d rayon threads)' % (inp[0] % 100)) + (' [scored individuals, child maker built through GenomeScorer]' if inp[0] >= 100 else ''), inp[1][:8], inp[2]) + (
         '; then, on the SAME Generation value, the steps [mode (0 serial / threads), failing call]: %s (observation: 4th element = their [result, population, log])' % inp[3] if len(inp) > 3 else '')
 PROPS['C09'] = dict(
     corr='CorrC09', judge='(judge_cases judge)',
     coq_targets=['theories/Props/C09.vo', 'theories/Corr/CorrC09.vo'],
     describe=c09_describe, no_shrink=True,
     nontrivial=lambda i, o: len(i[1]) >= 1,
-    classify=lambda i, o: 'serial' if i[0] == 0 else 'parallel',
-    bucket=lambda i, o: ['mode=%s' % ('serial' if i[0] == 0 else 'par/%d' % i[0]), 'size=%d' % len(i[1]), 'failure=%s' % ('injected' if 0 <= i[2] < len(i[1]) else 'none')],
+    classify=lambda i, o: ('serial' if i[0] % 100 == 0 else 'parallel') + ('/genome-scorer' if i[0] >= 100 else ''),
+    bucket=lambda i, o: ['mode=%s' % (('serial' if i[0] % 100 == 0 else 'par/%d' % (i[0] % 100)) + ('/genome-scorer' if i[0] >= 100 else '')), 'size=%d' % len(i[1]), 'failure=%s' % ('injected' if 0 <= i[2] < len(i[1]) else 'none')],
     rule='Generation::serial_next and par_next (rayon pools of 1, 2, 3, 4, 8, 16 threads, 6 / 100 repetitions each) over populations of size 0, 1, 2, 7, 64 with an instrumented child maker that records the address and contents of the population it is shown and two words drawn from the generator it is handed, and fails at a chosen call; failure injected at every call position (sampled for size 64), at a position beyond the last call, and not at all. Judged in coqc: exactly n invocations on success, every invocation saw the generation\'s own, unmodified population, all drawn words pairwise distinct, the new population is exactly the children (in call order for serial - computed by the model serial_next from the logged per-call behaviour - as a multiset for parallel), on failure the population equals the old one, the error is the failing child\'s, and serial stepping stops right there. Non-trivial: non-empty population.',
     trusted=['thread interleavings are SAMPLED, not enumerated; that children cannot mutate the shared population is Rust\'s &P / Sync typing (trusted)',
              'the randomness of Generation is rand::rng() (thread RNG): not seedable, so the judge is relational over the recorded words'],
@@ -703,7 +707,9 @@ C16_OPS = ['Best', 'Worst', 'Random', 'Tournament(2)', 'Lexicase(2)', 'WeightedP
            'OneOfCloning', 'ChooseCloning', 'IndividualGenerator', 'Select(Tournament).then(GenomeExtractor).then(Mutate(WithRate))', 'GenomeScorer over a pipeline',
            'Bitstring collection of BoolGenerator', 'WithRate and UniformXo interleaved on one generator',
            'Tournament(2) on 8..47 individuals with many ties', 'Tournament(3) on 8..47 individuals with many ties', 'Lexicase(2) on 8..47 individuals with many ties',
-           'Best on 8..47 individuals with many ties', 'DynWeighted[Tournament(2):2, Worst:1] on 8..47 individuals with many ties']
+           'Best on 8..47 individuals with many ties', 'DynWeighted[Tournament(2):2, Worst:1] on 8..47 individuals with many ties',
+           'TwoPointXo [Vec;2], equal parents with exact / spare capacity', 'TwoPointXo (Vec,Vec), equal parents with exact / spare capacity', 'UniformXo [Vec;2], equal parents with exact / spare capacity',
+           'WithOneOverLength Vec<bool> of 1..2 genes with exact / spare capacity', 'WithRate Vec<bool> with exact / spare capacity']
 def c16_describe(inp, obs):
     if inp[0] == 0:
         return '%s, seed %d, data %s; observed [run from a fresh value, run from another fresh value, run from an already-used value], each [[3 results], next generator word]' % (C16_OPS[inp[1]], inp[2], inp[3])
@@ -725,7 +731,7 @@ PROPS['C16'] = dict(
     describe=c16_describe, no_shrink=True, nontrivial=lambda i, o: True,
     classify=lambda i, o: ('op:%s' % C16_OPS[i[1]]) if i[0] == 0 else 'push-input-order',
     bucket=lambda i, o: [('op=%s' % C16_OPS[i[1]]) if i[0] == 0 else 'push permutations=%d' % i[3]],
-    rule='31 selectors, mutators, recombinators, generators and compositions (selectors also on populations of 8..47 distinct individuals with many ties - where hash order or a cache could decide) exported by the three crates (table in harness/src/c16.rs) x 12 (quick) / 200 (thorough) seeds: three consecutive calls from (A) a fresh operator value, (B) another fresh value with a generator cloned from the same seed, (C) a value that was already used five times with another generator - results and the next word of the generator must all coincide (a consult of the thread RNG, global state, or a cache inside the operator shows up as a difference); one entry interleaves two operators on one generator. Push: 80 (quick) / 600 (thorough) random nested programs with 2-3 bound inputs, evaluated under EVERY permutation of the input declarations and twice from each built state: all runs must coincide and equal the model run (stacks, output bytes, outcome).',
+    rule='36 selectors, mutators, recombinators, generators and compositions (selectors also on populations of 8..47 distinct individuals with many ties - where hash order or a cache could decide; vector genomes that are equal as values but differ in spare capacity) exported by the three crates (table in harness/src/c16.rs) x 12 (quick) / 200 (thorough) seeds: a counting loop evaluated for 1.2 million steps (about a second of wall-clock time) must equal the model run; three consecutive calls from (A) a fresh operator value, (B) another fresh value with a generator cloned from the same seed, (C) a value that was already used five times with another generator - results and the next word of the generator must all coincide (a consult of the thread RNG, global state, or a cache inside the operator shows up as a difference); one entry interleaves two operators on one generator. Push: 80 (quick) / 600 (thorough) random nested programs with 2-3 bound inputs, evaluated under EVERY permutation of the input declarations and twice from each built state: all runs must coincide and equal the model run (stacks, output bytes, outcome).',
     trusted=['that equal observable results and an equal next word mean equal generator states (SplitMix64 state = one word)'],
     assumptions=['"the code is a function of its arguments" is decided code-against-code: a Gallina model is deterministic by construction and cannot carry that claim'],
     level_text='Theorems (Props/C16.v): named inputs resolve independently of declaration order (lookup is invariant under permutation of a duplicate-free list) and therefore the whole evaluation of any program is - same stacks, output, limits, outcome, step count; combinators have no hidden state (the threaded state after a composition is what its parts left). Stream locality: an operator that uses only the generator it is handed depends only on the consumed stretch of the stream; drawing is local and every combinator preserves locality, so equal generator states give equal results and equal positions for every composition (C16_combinators_preserve_locality, C16_equal_generator_states_equal_results). The remaining half - no randomness or state other than the generator handed in - is decided by double runs from cloned generators on fresh and on used operator values, and by permuting input declarations.',
